@@ -293,6 +293,50 @@ pub fn cont_grid(fam: Family, s: Scalar) -> Vec<DistSpec> {
     ps.into_iter().map(|p| DistSpec::f(fam, s, &p)).collect()
 }
 
+/// Membership in the envelope E of DESIGN section 4 (continuous and float-parameter discrete
+/// families).  Used to keep systematically generated points (special-value cross, magnitude
+/// cross) inside the quantifier of the law properties.
+pub fn in_envelope(spec: &DistSpec) -> bool {
+    let f32_ = spec.scalar == Scalar::F32;
+    let p = &spec.p;
+    if p.iter().any(|x| !x.is_finite()) {
+        return false;
+    }
+    let (wlo, whi) = if f32_ { (1e-6, 1e6) } else { (1e-30, 1e30) };
+    let w = |x: f64| x >= wlo && x <= whi; // magnitude in W
+    let pm_w = |x: f64| x == 0.0 || w(x.abs()); // location: 0 or magnitude in W
+    let between = |x: f64, lo64: f64, hi64: f64, lo32: f64, hi32: f64| if f32_ { x >= lo32 && x <= hi32 } else { x >= lo64 && x <= hi64 };
+    match spec.family {
+        Family::StandardNormal | Family::Exp1 => true,
+        Family::Normal => pm_w(p[0]) && w(p[1].abs()),
+        Family::LogNormal => between(p[0].abs(), 0.0, 20.0, 0.0, 5.0) && between(p[1].abs(), 1e-3, 5.0, 1e-3, 3.0),
+        Family::LogNormalMeanCv | Family::NormalMeanCv => p[0] >= 1e-3 && p[0] <= 1e3 && p[1] >= 1e-3 && p[1] <= 10.0,
+        Family::Exp => w(p[0]),
+        Family::Gamma => between(p[0], 0.01, 1e5, 0.05, 1e4) && w(p[1]),
+        Family::ChiSquared => between(p[0], 0.02, 2e5, 0.1, 2e4),
+        Family::StudentT => between(p[0], 0.1, 1e5, 0.5, 1e4),
+        Family::FisherF => between(p[0], 0.1, 1e4, 0.5, 1e3) && between(p[1], 0.1, 1e4, 0.5, 1e3),
+        Family::Beta => between(p[0], 0.01, 1e4, 0.05, 1e3) && between(p[1], 0.01, 1e4, 0.05, 1e3),
+        Family::Pert | Family::PertMean | Family::Triangular => {
+            let (lo, hi) = (p[0], p[1]);
+            let big = lo.abs().max(hi.abs());
+            let rel = if f32_ { 2.0_f64.powi(-10) } else { 2.0_f64.powi(-20) };
+            pm_w(lo) && pm_w(hi) && hi > lo && hi - lo >= rel * big && (p.len() < 4 || (p[3] >= 0.0 && p[3] <= 100.0))
+        }
+        Family::Cauchy | Family::Gumbel => pm_w(p[0]) && w(p[1]),
+        Family::Pareto => w(p[0]) && between(p[1], 0.06, 1e4, 0.25, 1e3),
+        Family::Weibull => w(p[0]) && between(p[1], 0.006, 1e3, 0.05, 1e2),
+        Family::Frechet => pm_w(p[0]) && w(p[1]) && between(p[2], 0.06, 1e3, 0.25, 1e2),
+        Family::SkewNormal => pm_w(p[0]) && w(p[1]) && p[2].abs() <= 1e3,
+        Family::InverseGaussian => w(p[0]) && p[1] > 0.0 && p[0] / p[1] >= 1e-3 && p[0] / p[1] <= 1e3,
+        Family::Nig => p[0] >= 1e-2 && p[0] <= 1e2 && p[1].abs() <= 0.99 * p[0],
+        Family::Poisson => between(p[0], 1e-3, 1e15, 1e-3, 1e6),
+        Family::Zipf => between(p[0], 1.0, 1e15, 1.0, 1e6) && p[1] >= 0.0 && p[1] <= 20.0,
+        Family::Zeta => p[0] >= 1.02 && p[0] <= 100.0,
+        _ => true,
+    }
+}
+
 /// A generic interior point of E with no round value in it (moderate magnitudes).
 fn generic_base(fam: Family) -> Option<Vec<f64>> {
     Some(match fam {
@@ -328,7 +372,29 @@ fn generic_base(fam: Family) -> Option<Vec<f64>> {
 pub fn special_cross(fam: Family, s: Scalar) -> Vec<DistSpec> {
     let Some(base) = generic_base(fam) else { return vec![] };
     let d = 2.0_f64.powi(-12);
-    let specials = [1.0, 2.0, 0.5, 3.0, 1.0 + d, 1.0 - d, 2.0 + 2.0 * d, 2.0 - 2.0 * d];
+    // closer neighbours (relative 2^-15 = 3e-5): inside a tolerance of ~1000 eps_f32; powers
+    // of two and 10: fast paths for "integral power of two" exponents, round decimal values
+    let e = 2.0_f64.powi(-15);
+    let specials = [
+        1.0,
+        2.0,
+        0.5,
+        3.0,
+        1.0 + d,
+        1.0 - d,
+        2.0 + 2.0 * d,
+        2.0 - 2.0 * d,
+        1.0 + e,
+        1.0 - e,
+        0.5 * (1.0 + e),
+        (1.0 / 3.0) * (1.0 - e),
+        0.25 * (1.0 + e),
+        4.0,
+        8.0,
+        16.0,
+        64.0,
+        10.0,
+    ];
     let mut v = Vec::new();
     for i in 0..base.len() {
         if fam == Family::Zipf && i == 0 {
@@ -344,7 +410,10 @@ pub fn special_cross(fam: Family, s: Scalar) -> Vec<DistSpec> {
             if fam == Family::Zeta && !(p[0] > 1.0) {
                 continue;
             }
-            v.push(DistSpec::f(fam, s, &p));
+            let spec = DistSpec::f(fam, s, &p);
+            if in_envelope(&spec) {
+                v.push(spec);
+            }
         }
     }
     v
@@ -375,12 +444,18 @@ pub fn magnitude_cross(fam: Family, s: Scalar) -> Vec<DistSpec> {
         for &i in hom {
             p[i] *= c;
         }
-        v.push(DistSpec::f(fam, s, &p));
+        let spec = DistSpec::f(fam, s, &p);
+        if in_envelope(&spec) {
+            v.push(spec);
+        }
         // location 0: the scale alone carries the magnitude
         if hom.len() >= 2 && fam != Family::Triangular {
             let mut q = p.clone();
             q[0] = 0.0;
-            v.push(DistSpec::f(fam, s, &q));
+            let spec = DistSpec::f(fam, s, &q);
+            if in_envelope(&spec) {
+                v.push(spec);
+            }
         }
     }
     v
